@@ -3,8 +3,25 @@ import csv as pycsv, io, json
 from concurrent.futures import ThreadPoolExecutor
 from vlib import *
 
-FMT = {"tsv": 0, "dkvp": 1, "nidx": 2, "csv": 3, "json": 4, "xtab": 5, "csvlite": 6, "pprint": 7}
-WIDTH_FMTS = ("xtab", "pprint")
+FMT = {"tsv": 0, "dkvp": 1, "nidx": 2, "csv": 3, "json": 4, "xtab": 5, "csvlite": 6, "pprint": 7, "markdown": 8}
+WIDTH_FMTS = ("xtab", "pprint", "markdown")
+
+# strings.TrimSpace: the Unicode White_Space runes, UTF-8 encoded (barred PPRINT and markdown readers trim every cell)
+WS_SEQS = [b"\t", b"\n", b"\x0b", b"\x0c", b"\r", b" ", b"\xc2\x85", b"\xc2\xa0", b"\xe1\x9a\x80"] \
+    + [b"\xe2\x80" + bytes([c]) for c in list(range(0x80, 0x8b)) + [0xa8, 0xa9, 0xaf]] + [b"\xe2\x81\x9f", b"\xe3\x80\x80"]
+
+
+def trim_stable(x):
+    return not any(x.startswith(q) or x.endswith(q) for q in WS_SEQS)
+
+
+def dashes_only(cells):
+    """the markdown reader takes `| - |  |` for a header-separator line"""
+    return all(set(x) <= set(b"- ") for x in cells)
+
+
+def md_escape(v):
+    return v.replace(b"|", b"\\|")
 
 # separators: (command-line spelling, bytes)
 SEPS1 = [(",", b","), (";", b";"), ("|", b"|"), (":", b":"), ("semicolon", b";"), ("pipe", b"|"), ("comma", b","),
@@ -131,20 +148,43 @@ def gen_write_case(ctx, fmt):
             c["seps"] = [fs[1]]
             excl = fs[1] + b"\n"
         else:
-            args = ["--opprint"]
+            right = rng.random() < 0.25
+            barred = rng.random() < 0.35
+            headerless = rng.random() < 0.2
+            args = ["--opprint"] + (["--right"] if right else []) + ([rng.choice(["--barred", "--barred-output"])] if barred else [])
             c["seps"] = []
-            excl = b" \n"
+            excl = b"|\n" if barred else b" \n\r"
         args += (["--headerless-csv-output"] if headerless else []) + (["--ors", "crlf"] if crlf else [])
-        c["flags"] = [headerless, crlf]
+        c["flags"] = [headerless, crlf] + ([right, barred] if fmt == "pprint" else [])
         in_dom = rng.random() < 0.85
-        alpha = alpha_without(excl + b"\r") if in_dom else ALPHA_WEIGHTED
+        alpha = alpha_without(excl if fmt == "pprint" else excl + b"\r") if in_dom else ALPHA_WEIGHTED
+        if fmt == "pprint" and barred:
+            alpha = alpha + [b" ", b"\xc2\xa0", b"\xe2\x80\x83", b"\xe3\x80\x80", b"\xe2\x80"] * 2
+        positional = headerless and rng.random() < 0.8
         recs, keys = [], None
         for i in range(nrec):
             if keys is None or rng.random() < 0.35:      # schema change (heterogeneity)
                 n = gen_nfields(rng, big and i < 2) if rng.random() > 0.05 else 0
                 keys = gen_keys(rng, n, alpha)
-                if fmt == "pprint" and in_dom:
+                if fmt == "pprint" and in_dom and not c["flags"][3]:
                     keys = [k or b"k" for k in keys]
+                if positional:
+                    keys = [b"%d" % (q + 1) for q in range(n)]
+            recs.append([(k, gen_cell(rng, alpha, empty_p=0.12)) for k in keys])
+        c["args"], c["recs"] = args, recs
+    elif fmt == "markdown":
+        crlf = rng.random() < 0.2
+        aligned = rng.random() < 0.4
+        args = [rng.choice(["--omd-aligned", "--omarkdown-aligned"])] if aligned else [rng.choice(["--omd", "--omarkdown"])]
+        args += ["--ors", "crlf"] if crlf else []
+        c["flags"] = [aligned, crlf]; c["seps"] = []
+        in_dom = rng.random() < 0.85
+        alpha = (alpha_without(b"|\n") if in_dom else ALPHA_WEIGHTED) + [b" ", b"\xc2\xa0", b"\xe2\x80\x83", b"-", b"--"] * 2
+        recs, keys = [], None
+        for i in range(nrec):
+            if keys is None or rng.random() < 0.35:
+                n = gen_nfields(rng, big and i < 2) if rng.random() > 0.05 else 0
+                keys = gen_keys(rng, n, alpha)
             recs.append([(k, gen_cell(rng, alpha, empty_p=0.12)) for k in keys])
         c["args"], c["recs"] = args, recs
     elif fmt == "xtab":
@@ -236,22 +276,38 @@ def in_domain(c):
             if r and not crlf and r[-1][1].endswith(b"\r"):
                 return False
         return True
+    if fmt in ("pprint", "markdown") and (fmt == "markdown" or c["flags"][3]):
+        # barred PPRINT / markdown: cells are trimmed by the reader; "" and "-" are ordinary values (barred)
+        headerless = fmt == "pprint" and c["flags"][0]
+        for r in recs:
+            ks = [k for k, _ in r]
+            vs = [v for _, v in r]
+            if not r or len(set(ks)) != len(ks) or any(44 in k for k in ks):
+                return False
+            if any(set(x) & {10, 124} or not trim_stable(x) for x in ks + vs):
+                return False
+            if headerless and ks != [b"%d" % (q + 1) for q in range(len(r))]:
+                return False
+            if fmt == "markdown" and (dashes_only(ks) or dashes_only(vs)):
+                return False
+        return True
     if fmt in ("csvlite", "pprint"):
-        if c["flags"][0]:
-            return False        # headerless output is not self-describing (heterogeneity is lost)
+        headerless = c["flags"][0]    # headerless output is read back with --implicit-csv-header: keys 1..n
         fs = c["seps"][0] if fmt == "csvlite" else b" "
         for i, r in enumerate(recs):
             ks = [k for k, _ in r]
             if not r or len(set(ks)) != len(ks):
                 return False
             cells = ks + [v for _, v in r]
-            if any(set(x) & (set(fs) | {10, 13, 44}) for x in cells):
+            if any(set(x) & (set(fs) | {10, 13}) for x in cells) or any(44 in k for k in ks):
                 return False
             if fmt == "pprint" and (any(x == b"" for x in ks) or any(v == b"-" for _, v in r)):
                 return False
             if fmt == "csvlite" and len(r) == 1 and (ks[0] == b"" or r[0][1] == b""):
                 return False    # a single empty field is an empty line, which means schema change
-            if i == 0 and ks[0].startswith(b"\xef"):
+            if headerless and ks != [b"%d" % (q + 1) for q in range(len(r))]:
+                return False
+            if i == 0 and ks[0].startswith(b"\xef") and not headerless:
                 return False
         return True
     if fmt == "xtab":
@@ -466,13 +522,20 @@ def read_variants(ctx, c):
     elif fmt in ("csvlite", "pprint"):
         dd = rng.random() < 0.85
         rg = rng.random() < 0.15
-        if not c["flags"][0]:
-            if fmt == "csvlite":
-                fs = c["seps"][0]
-                out.append((["--icsvlite"] + (["--ifs", sepname(fs)] if fs != b"," else []) + ([] if dd else ["--no-dedupe-field-names"])
-                            + (["--allow-ragged-csv-input"] if rg else []), [dd, rg], [fs]))
-            else:
-                out.append((["--ipprint"] + ([] if dd else ["--no-dedupe-field-names"]) + (["--allow-ragged-csv-input"] if rg else []), [dd, rg], []))
+        imp = c["flags"][0]
+        common = ([] if dd else ["--no-dedupe-field-names"]) + (["--allow-ragged-csv-input"] if rg else []) \
+            + ([rng.choice(["--implicit-csv-header", "--hi", "--headerless-csv-input"])] if imp else [])
+        if fmt == "csvlite":
+            fs = c["seps"][0]
+            out.append((["--icsvlite"] + (["--ifs", sepname(fs)] if fs != b"," else []) + common, [dd, rg, imp], [fs]))
+        else:
+            barred = c["flags"][3]
+            out.append((["--ipprint"] + (["--barred-input"] if barred else []) + common, [dd, rg, barred, imp], []))
+    elif fmt == "markdown":
+        dd = rng.random() < 0.85
+        rg = rng.random() < 0.15
+        out.append(([rng.choice(["--imd", "--imarkdown"])] + ([] if dd else ["--no-dedupe-field-names"]) + (["--allow-ragged-csv-input"] if rg else []),
+                    [dd, rg, False, False], []))
     elif fmt == "xtab":
         ps = c["seps"][0]
         dd = rng.random() < 0.85
@@ -543,14 +606,47 @@ def gen_json_text(rng):
     return ws() + b"".join(o + ws() + rng.choice([b"\n", b"", b" "]) for o in objs)
 
 
+EXTRA_KINDS = [k for k in os.environ.get("C01_EXTRA", "").split(",") if k]      # development aid
+
+
 def gen_extra_read_cases(ctx, n):
     rng = ctx.rng
     jobs = []
     for _ in range(n):
-        kind = rng.choice(["lite-hand", "pprint-hand", "xtab-hand", "json-hand", "json-hand", "csv-legal", "csv-legal", "csv-legal", "csv-bom", "csv-noeol", "csv-ragged", "csv-implicit", "csv-lazy", "csv-dupkeys",
+        kind = rng.choice(EXTRA_KINDS if EXTRA_KINDS else ["lite-hand", "pprint-hand", "lite-implicit-hand", "pprint-implicit-hand", "barred-hand", "barred-hand", "md-hand", "md-hand", "xtab-hand", "json-hand", "json-hand", "csv-legal", "csv-legal", "csv-legal", "csv-bom", "csv-noeol", "csv-ragged", "csv-implicit", "csv-lazy", "csv-dupkeys",
                            "tsv-hand", "tsv-ragged", "tsv-implicit", "dkvp-hand", "dkvp-repifs", "nidx-ws", "nidx-hand"])
         ctx.dist("read-extra:" + kind)
-        if kind in ("lite-hand", "pprint-hand"):
+        if kind in ("barred-hand", "md-hand"):
+            md = kind == "md-hand"
+            alpha = [p for p in ALPHA_WEIGHTED if b"\n" not in p and b"\r" not in p] + [b" ", b"  ", b"-", b"\xc2\xa0", b"\xe2\x80\x83"] * 4 + [b"|", b"+"] * 3
+            ncol = rng.randint(1, 5)
+            lines = []
+            for _ in range(rng.randint(1, 8)):
+                r = rng.random()
+                n = ncol if rng.random() < 0.8 else max(0, ncol + rng.randint(-2, 2))
+                if r < 0.55:
+                    cells = [b"".join(rng.choice(alpha) for _ in range(rng.randint(0, 4))) for _ in range(n)]
+                    lines.append(b"|" + b"".join(b" " * rng.randint(0, 2) + x + b" " * rng.randint(0, 3) + b"|" for x in cells))
+                elif r < 0.75:
+                    lines.append((b"| " + b" | ".join(rng.choice([b"---", b"-", b"--:", b":--", b""]) for _ in range(n)) + b" |") if md
+                                 else (b"+-" + b"-+-".join(b"-" * rng.randint(0, 4) for _ in range(n)) + b"-+"))
+                elif r < 0.85:
+                    lines.append(b"")
+                else:
+                    lines.append(b"".join(rng.choice(alpha) for _ in range(rng.randint(1, 8))))
+            eol = rng.choice([b"\n", b"\n", b"\r\n"])
+            text = eol.join(lines) + (eol if rng.random() < 0.85 else b"")
+            dd = rng.random() < 0.7
+            rg = rng.random() < 0.4
+            imp = rng.random() < 0.3
+            jobs.append({"fmt": "markdown" if md else "pprint",
+                         "args": (["--imd"] if md else ["--ipprint", "--barred-input"]) + ([] if dd else ["--no-dedupe-field-names"])
+                         + (["--allow-ragged-csv-input"] if rg else []) + (["--implicit-csv-header"] if imp else []),
+                         "flags": [dd, rg, not md, imp], "seps": [], "text": text, "kind": kind})
+        elif kind in ("lite-hand", "pprint-hand", "lite-implicit-hand", "pprint-implicit-hand"):
+            imp = "implicit" in kind
+            kind0 = kind
+            kind = kind.replace("-implicit", "")
             fs = b"," if kind == "lite-hand" else b" "
             alpha = [p for p in ALPHA_WEIGHTED if b"\n" not in p and b"\r" not in p] + [fs, fs, fs + fs, b"-"] * 8
             lines = [b"".join(rng.choice(alpha) for _ in range(rng.randint(1, 10))) if rng.random() < 0.85 else b"" for _ in range(rng.randint(1, 7))]
@@ -562,8 +658,8 @@ def gen_extra_read_cases(ctx, n):
             rg = rng.random() < 0.4
             base = ["--icsvlite"] if kind == "lite-hand" else ["--ipprint"]
             jobs.append({"fmt": "csvlite" if kind == "lite-hand" else "pprint",
-                         "args": base + ([] if dd else ["--no-dedupe-field-names"]) + (["--allow-ragged-csv-input"] if rg else []),
-                         "flags": [dd, rg], "seps": [fs] if kind == "lite-hand" else [], "text": text, "kind": kind})
+                         "args": base + ([] if dd else ["--no-dedupe-field-names"]) + (["--allow-ragged-csv-input"] if rg else []) + (["--implicit-csv-header"] if imp else []),
+                         "flags": [dd, rg, imp] if kind == "lite-hand" else [dd, rg, False, imp], "seps": [fs] if kind == "lite-hand" else [], "text": text, "kind": kind0})
         elif kind == "xtab-hand":
             ps = rng.choice([b" ", b" ", b":", b"::"])
             alpha = [p for p in ALPHA_WEIGHTED if b"\n" not in p] + [ps, ps + ps, b" "] * 8
@@ -745,10 +841,13 @@ def run(ctx):
                        "go-csv behaviour after a quoting error inside a record is not modelled (cases skipped and counted)",
                        "comma/IFS bytes below 0x80"]
     forbidden_gate(ctx, ["Base", "C01"])
-    ok, why = check_props(ctx, "C01/Props.v", ["C01/Harness.vo", "C01/ProofsDkvp.vo", "C01/ProofsTsv.vo", "C01/ProofsCsv.vo", "C01/ProofsCsv2.vo", "C01/ProofsJson.vo", "C01/ProofsXtab.vo", "C01/ProofsLite.vo"])
+    ok, why = check_props(ctx, "C01/Props.v", ["C01/Harness.vo", "C01/ProofsDkvp.vo", "C01/ProofsTsv.vo", "C01/ProofsCsv.vo", "C01/ProofsCsv2.vo", "C01/ProofsJson.vo", "C01/ProofsXtab.vo", "C01/ProofsLite.vo", "C01/ProofsPprint.vo", "C01/ProofsBarred.vo", "C01/ProofsMd.vo"])
 
     # ---- generate and run the writers
-    per_fmt = {"tsv": 200, "csv": 260, "dkvp": 140, "nidx": 80, "json": 140, "xtab": 120, "csvlite": 140, "pprint": 140} if quick else {"tsv": 4000, "csv": 5000, "dkvp": 3000, "nidx": 1500, "json": 3000, "xtab": 2500, "csvlite": 2500, "pprint": 2500}
+    per_fmt = {"tsv": 180, "csv": 240, "dkvp": 120, "nidx": 70, "json": 120, "xtab": 120, "csvlite": 140, "pprint": 220, "markdown": 120} if quick else {"tsv": 4000, "csv": 5000, "dkvp": 3000, "nidx": 1500, "json": 3000, "xtab": 2500, "csvlite": 2500, "pprint": 4000, "markdown": 2500}
+    only = os.environ.get("C01_ONLY")      # development aid: restrict the generated formats
+    if only:
+        per_fmt = {k: v for k, v in per_fmt.items() if k in only.split(",")}
     wcases = []
     for fmt, n in per_fmt.items():
         for _ in range(n):
@@ -761,10 +860,12 @@ def run(ctx):
             ctx.dist("fields>=12" if nf >= 12 else "fields<12")
     with ctx.timed("impl_write"):
         wres = impl_write(ctx, wcases)
-    wtab = impl_widths(ctx, [x for c in wcases if c["fmt"] in WIDTH_FMTS for r in c["recs"] for kv in r for x in kv])
+    def wstrings(c):
+        return [y for r in c["recs"] for kv in r for x in kv for y in ((x, md_escape(x)) if c["fmt"] == "markdown" else (x,))]
+    wtab = impl_widths(ctx, [x for c in wcases if c["fmt"] in WIDTH_FMTS for x in wstrings(c)])
     for c in wcases:
         if c["fmt"] in WIDTH_FMTS:
-            c["widths"] = {x: wtab[x] for r in c["recs"] for kv in r for x in kv}
+            c["widths"] = {x: wtab[x] for x in wstrings(c)}
     terms, meta = [], []
     for c, (out, err) in zip(wcases, wres):
         obs = None if err else out
@@ -911,6 +1012,14 @@ WITNESSES = [
     ("tsv-single-column-empty-cell", ["--otsv"], ["--itsv"], [[(b"a", b"")]]),
     ("csv-reader-crlf-in-quoted-field-to-lf", ["--ocsv"], ["--icsv"], [[(b"a", b"x\r\ny")]]),
     ("csv-ors-crlf-writer-drops-cr", ["--ocsv", "--ors", "crlf"], ["--icsv"], [[(b"a", b"x\ry")]]),
+    ("markdown-escaped-bar-not-unescaped", ["--omd"], ["--imd"], [[(b"a", b"x|y"), (b"b", b"2")]]),
+    ("markdown-dash-only-row-dropped", ["--omd"], ["--imd"], [[(b"a", b"-"), (b"b", b"")]]),
+    # representational limits of PPRINT (theorems C01_pprint_*_refuted): must stay as modelled
+]
+# reader-only regression probes of repaired defects: (name, read args, text, expected records)
+READ_PROBES = [
+    ("regression-of-ff74c4ac8-barred-implicit-header-panic", ["--ipprint", "--barred-input", "--implicit-csv-header"], b"abc\n| x | y |\n", [[(b"1", b"x"), (b"2", b"y")]]),
+    ("regression-of-a96f6ff95-multi-char-irs-drops-chunk", ["--idkvp", "--irs", "usv_rs"], b"a=x\xc3\x9ey\xe2\x90\x9eb=2\xe2\x90\x9e", [[(b"a", b"x\xc3\x9ey")], [(b"b", b"2")]]),
 ]
 
 
@@ -928,6 +1037,12 @@ def probe_witnesses(ctx):
                            "recs_hex": [[(k.hex(), v.hex()) for k, v in r] for r in recs], "written_hex": out.hex(), "status": kind,
                            "observed": None if got is None else [[(k.hex(), v.hex()) for k, v in r] for r in got],
                            "stderr": rerr.decode("latin1")[-300:], "expected": "the records written", "input": repr(recs)})
+    for (name, rargs, text, want), (kind, got, rerr) in zip(READ_PROBES, impl_read_many(ctx, [(p[1], p[2]) for p in READ_PROBES])):
+        ctx.count(("read-probe", name))
+        status[name] = "holds" if (kind == "ok" and got == want) else "fails"
+        if status[name] == "fails":
+            ctx.violation({"broken": "reader regression probe", "class": name, "read_args": rargs, "input_hex": text.hex(), "status": kind,
+                           "observed": repr(got)[:800], "expected": repr(want)[:800], "stderr": rerr.decode("latin1")[-300:], "input": repr(text)})
     # python csv on --ors crlf output with an LF inside a cell
     out, err = impl_write(ctx, [{"args": ["--ocsv", "--ors", "crlf"], "recs": [[(b"a", b"p\nq")]]}])[0]
     cells = py_csv_read(out, b",")
